@@ -125,6 +125,9 @@ def indices_from_counts(c):
     same_b = sum(comb2(v) for v in rb.values())
     both = sum(comb2(v) for v in c.values())
     tot = comb2(n)
+    res["pw_p"] = both / same_b if same_b else None
+    res["pw_r"] = both / same_a if same_a else None
+    res["rand"] = (both + (tot - same_a - same_b + both)) / tot if tot else None
     if (len(ra) == len(rb) == 1) or (len(ra) == len(rb) == n):
         res["ari"] = 1.0
     else:
